@@ -301,8 +301,8 @@ theorem memPriv_reopen (s : State) : memPriv (reopen s) = s.disk.priv := rfl
 
 /-- every request other than a passphrase change leaves the stored private passphrase id and the in-memory
 override alone -/
-theorem step_pframe (s : State) (op : Op) (h1 : ∀ pr o n, op ≠ .chPass pr o n) (h2 : ∀ a b c d, op ≠ .chBoth a b c d) :
-    PFrame s (step s op).1 := by
+theorem step_pframe (s : State) (op : Op) (h1 : ∀ pr o n, op ≠ .chPass pr o n) (h2 : ∀ a b c d, op ≠ .chBoth a b c d)
+    (h3 : op ≠ .restart) : PFrame s (step s op).1 := by
   cases op with
   | newAddr sc a i cf => exact stepNewAddr_pframe s sc a i cf
   | curAddr sc a => exact stepCurAddr_pframe s sc a
@@ -318,10 +318,12 @@ theorem step_pframe (s : State) (op : Op) (h1 : ∀ pr o n, op ≠ .chPass pr o 
   | unlockPass p => exact stepUnlockPass_pframe s p
   | chPass pr o n => exact absurd rfl (h1 pr o n)
   | chBoth a b c d => exact absurd rfl (h2 a b c d)
+  | restart => exact absurd rfl h3
 
-theorem step_priv_frame (s : State) (op : Op) (h1 : ∀ pr o n, op ≠ .chPass pr o n) (h2 : ∀ a b c d, op ≠ .chBoth a b c d) :
+theorem step_priv_frame (s : State) (op : Op) (h1 : ∀ pr o n, op ≠ .chPass pr o n) (h2 : ∀ a b c d, op ≠ .chBoth a b c d)
+    (h3 : op ≠ .restart) :
     (step s op).1.disk.priv = s.disk.priv ∧ (step s op).1.mem.privOv = s.mem.privOv :=
-  ⟨(step_pframe s op h1 h2).2, (step_pframe s op h1 h2).1⟩
+  ⟨(step_pframe s op h1 h2 h3).2, (step_pframe s op h1 h2 h3).1⟩
 
 theorem stepChPass_privInv (s : State) (pr old new) (h : PrivInv s) : PrivInv (stepChPass s pr old new).1 := by
   cases pr
@@ -347,7 +349,9 @@ theorem step_privInv (s : State) (op : Op) (h : PrivInv s) : PrivInv (step s op)
   cases op with
   | chPass pr o n => exact stepChPass_privInv s pr o n h
   | chBoth a b c d => exact stepChBoth_privInv s a b c d h
-  | _ => exact h.of_pframe (step_pframe s _ (by intro pr o n hh; cases hh) (by intro a b c d hh; cases hh))
+  | restart => exact reopen_privInv s
+  | _ => exact h.of_pframe (step_pframe s _ (by intro pr o n hh; cases hh) (by intro a b c d hh; cases hh)
+      (by intro hh; cases hh))
 
 theorem run_privInv (s : State) (ops : List Op) (h : PrivInv s) : PrivInv (run s ops) := by
   induction ops generalizing s with
